@@ -20,10 +20,11 @@ Correspondence, every run:
 import json, os, re, shutil, sys
 import common as C
 import c05_gen
+import c05_rec
 
 ID = "C05"
 PROPS_FILE = "Props/C05.v"
-MODEL_TARGETS = ["Corr/C05_Eval.v"]
+MODEL_TARGETS = ["Corr/C05_Eval.v", "Corr/C05_RecEval.v"]
 ALLOWED_AXIOMS = []
 RULE = ("graphs: 1-14 declarations over a pool of 2-10 names; each declaration unnamed / object filter / object+method filter / "
         "method filter only / both equal, alive flag 15%, link flag 10%, 0-5 deps (pool names, misses, \"\", duplicates), Include order "
@@ -31,15 +32,30 @@ RULE = ("graphs: 1-14 declarations over a pool of 2-10 names; each declaration u
         "programs: 2-6 feature instances (unexported methods matched by interfaces with 25 signature type shapes, method values/"
         "expressions (on concrete AND interface types), embedding, generics (signatures reaching T through nested instantiation), constraint methods, local types, initialisers with side effects, go:linkname, "
         "recover/go/defer paths, named composite types, cross-package embedding), each in main or a sub package, 25% never called. "
-        "expressions: random trees over the 13 constructors of the side-effect model, depth <= 4")
+        "expressions: random trees over the 13 constructors of the side-effect model, depth <= 4. "
+        "records (phase 4): abstract programs of 2-4 structs (embedding, by-value/pointer/slice/map fields), 1-2 generic structs with 1-2 type parameters and "
+        "instances over 4 kinds of type arguments, 1-3 interfaces, 1-2 generic functions, 0-3 variables, 2-5 functions with 1-6 mentions each (function / instance / "
+        "variable / type mention, method value through concrete, promoted, named-interface and literal-interface receivers, method expressions (*T).m and I.m), 6 method "
+        "names x exported/unexported x value/pointer receivers, signatures with variadics, func types and byte/uint8 respellings 15%; 16 quick / 600 thorough; "
+        "non-trivial = some Decl is eliminated and >= 2 mention kinds occur")
 TRUSTED = ["model of Info/Selector/Include written by hand (coq/Model/C05_Select.v), tied by correspondence (1) and by feeding it the decl graphs of real programs (2)",
            "model of HasSideEffect (coq/Model/C05_SideEffect.v) tied by correspondence (3); go/types decides what is a conversion",
-           "the DCE NAMES (compiler/internal/dce/filters.go) and the places where dependencies are recorded (compiler/{utils,expressions,statements,decls}.go) "
-           "are NOT modelled: their adequacy is exactly hypothesis `refs d d' -> filters d' <= deps d` of select_sound, checked on generated programs by (2)",
+           "phase 4: model of the RECORDER (coq/Model/C05_Record.v: getFilters/filterGen names for objects, generic instances, receivers and unexported method "
+           "signatures; DeclareDCEDep call sites objectName/instName/typeName/makeReceiver/method expressions/method lists) written by hand for an abstract syntax of "
+           "mentions, tied by correspondence (5): generated abstract programs are rendered as Go, compiled by the real compiler, and every Decl's object filter, method "
+           "filter, dependency set and selection are compared with the model's on the same abstract program",
+           "in (5) the harness collapses the Decls of anonymous composite types into their users (the model does the same), and computes which types a struct's "
+           "constructor/zero value names (nested structs by value, pointer and slice fields of those): that closure is an input of the model, not modelled",
+           "NOT modelled by the recorder: struct/interface/array/chan literals inside signatures, type-parameter constraints other than any, types nested in functions, "
+           "bodies of generic functions (mentions are given per instance), linknames; for those the adequacy of the recorded deps is still only tested by (2)",
            "harness/go/repo_overlay/compiler/verifharness/c05 (replicates the 8-line Include loop of WriteProgramCode only to report the selection; "
            "the replica is compared with the real out.js on every program) + compiler/internal/dce/export_c05_verif.go",
            "node as the JavaScript engine; native Go 1.23 as reference output on a share of the programs"]
-ASSUMPTIONS = ["select_sound: the recorded deps over-approximate the run-time reference relation (checked, not proved, by (2))",
+ASSUMPTIONS = ["C05_select_sound (phase 4): reachability is rapid-type-analysis reachability over the modelled mentions: a method body can be executed only if some "
+               "reachable declaration names its receiver type instance (values of a named type come into existence only in code that names the type); which "
+               "declaration a mention needs / can dispatch to is defined with types.Identical on type arguments and signatures, independently of filter strings",
+               "C05_select_sound holds for programs spelled without the alias names byte/rune (prog_ok); without that hypothesis it is refuted (two recorded findings)",
+               "outside the modelled syntax (see TRUSTED): the recorded deps over-approximate the run-time reference relation (C05_select_sound_partial; checked, not proved, by (2))",
                "programs import only unsafe and a sibling package; println is the only output"]
 
 HARNESS = lambda: os.path.join(C.BIN, "h_c05")
@@ -556,6 +572,17 @@ func main() {
 }
 '''
 
+WITNESS_INSTANCE_SPELLING = '''package main
+
+func F[T any](x T) int { println("F called"); return 1 }
+
+func dead() int { return F[byte](1) }
+
+func main() {
+	println(F[uint8](2))
+}
+'''
+
 WITNESS_SELFREF_CONSTRAINT = '''package main
 
 type num int
@@ -570,9 +597,9 @@ func main() { println(int(dbl(num(4)))) }
 
 def witnesses(ctx):
     """the three fixed witness programs, concurrently (ctx.count is called from here, not from the threads)"""
-    for src in (WITNESS_PANICKING_INIT, WITNESS_NAMED_FUNC, WITNESS_SELFREF_CONSTRAINT, WITNESS_BYTE_SPELLING):
+    for src in (WITNESS_PANICKING_INIT, WITNESS_NAMED_FUNC, WITNESS_SELFREF_CONSTRAINT, WITNESS_BYTE_SPELLING, WITNESS_INSTANCE_SPELLING):
         ctx.count(["witness", src], nontrivial=True)
-    C.parallel_map(lambda f: f(ctx), [witness_panicking_init, witness_named_func, witness_selfref, witness_byte_spelling])
+    C.parallel_map(lambda f: f(ctx), [witness_panicking_init, witness_named_func, witness_selfref, witness_byte_spelling, witness_instance_spelling])
 
 
 def witness_byte_spelling(ctx):
@@ -595,6 +622,28 @@ def witness_byte_spelling(ctx):
         elif not (nrm["rc"] == 0 and nrm["text"] == nat["text"] == al["text"]):
             ctx.violation("dce-changes-behaviour", "byte/uint8 witness behaves in an unexpected way",
                           dict(kind="program", files={"main.go": WITNESS_BYTE_SPELLING}, normal=nrm, all_alive=al, native=nat))
+
+
+def witness_instance_spelling(ctx):
+    # phase 4: the instance F[byte] (first seen in dead code) names the Decl; the live call site F[uint8] records the other spelling
+    d = os.path.join(wdir(ctx), "w_inst")
+    res = build_and_check(ctx, d, {"main.go": WITNESS_INSTANCE_SPELLING}, native=True)
+    if res["stage"] == "infra" or "native" not in res:
+        ctx.notes.append("generic-instance spelling witness skipped (infrastructure): " + res.get("log", res.get("native_skipped", ""))[:200])
+    elif res["stage"] != "done":
+        ctx.violation("witness-build-failed", "witness program did not build: " + res["log"][-300:], dict(log=res["log"]), concrete=False)
+    else:
+        nrm, al, nat = res["normal"], res["all_alive"], res["native"]
+        ctx.cov["witness_instance_spelling"] = dict(normal_rc=nrm["rc"], normal_jserror=nrm["jserror"], all_alive=al["text"][:60], native=nat["text"][:60])
+        if nat["rc"] == 0 and al["rc"] == 0 and al["text"] == nat["text"] and nrm["rc"] != 0:
+            ctx.violation("dce-generic-instance-byte-uint8-spelling-mismatch",
+                          "`F[byte]` used only in dead code, `F[uint8]` in main (one instance): Go and the all-alive link print %r, the normally "
+                          "linked program fails (%s): the instance Decl is named F[byte], the live call site records F[uint8], the instance is eliminated"
+                          % (nat["text"], nrm["jserror"]),
+                          dict(kind="program", files={"main.go": WITNESS_INSTANCE_SPELLING}, normal=nrm, all_alive=al, native=nat))
+        elif not (nrm["rc"] == 0 and nrm["text"] == nat["text"] == al["text"]):
+            ctx.violation("dce-changes-behaviour", "generic-instance spelling witness behaves in an unexpected way",
+                          dict(kind="program", files={"main.go": WITNESS_INSTANCE_SPELLING}, normal=nrm, all_alive=al, native=nat))
 
 
 def witness_panicking_init(ctx):
@@ -718,6 +767,104 @@ def side_effects(ctx):
     ctx.cov["expr_distribution"] = dist
 
 
+# ---------------------------------------------------------------- (5) recorded names and dependencies (phase 4)
+
+REC_HEADER = ("From Coq Require Import List String NArith.\nFrom Verif Require Import Model.C05_Select Model.C05_Record Corr.C05_RecEval.\n"
+              "Import ListNotations.\nLocal Open Scope string_scope.\nLocal Open Scope list_scope.\n")
+
+
+def records(ctx):
+    """abstract programs -> Go source through the REAL compiler (h_c05 link dumps every Decl's DCE names, deps, selection) vs the mirrored
+    recorder Model.C05_Record.compile + select on the same abstract program (Coq vm_compute)"""
+    r = ctx.rng("records")
+    n = 16 if ctx.quick else 600
+    n = int(os.environ.get("VERIF_C05_NREC", n))           # development knob only
+    gens = [c05_rec.gen(r) for _ in range(n)]
+
+    def one(i):
+        d = os.path.join(wdir(ctx), "r%d" % i)
+        try:
+            C.write_go_program(d, {"main.go": gens[i].go()})
+            os.makedirs(os.path.join(d, "o"), exist_ok=True)
+            rc, out, err = C.sh2([HARNESS(), "link", "o"], cwd=d, env=henv(), timeout=600)
+            if rc == 124 or (rc != 0 and not os.path.exists(os.path.join(d, "main.go"))):
+                return ("infra", "compile+link timed out / scratch directory disappeared")
+            if rc != 0:
+                return ("build", (out + err)[-800:])
+            return ("ok", c05_rec.real_rdecls(json.load(open(os.path.join(d, "o", "decls.json")))))
+        except Exception as e:      # noqa
+            return ("infra", "harness driver raised " + repr(e))
+
+    results = C.parallel_map(one, range(n))
+    cases, feats = [], {}
+    for i, (st, val) in enumerate(results):
+        if st == "infra":
+            ctx.notes.append("recorder case skipped (infrastructure): " + val[:160])
+        elif st == "build" or val is None:
+            ctx.violation("recorder-program-rejected", "a generated abstract program did not compile: " + str(val)[-300:],
+                          dict(kind="record", go=gens[i].go(), log=str(val)), concrete=False)
+        else:
+            cases.append((i, val))
+            kinds = sorted({x[0] for f in gens[i].funcs for _, refs in f["stmts"] for x in refs})
+            for k in kinds:
+                feats[k] = feats.get(k, 0) + 1
+            ctx.count(["record", gens[i].go()], nontrivial=any(not x["sel"] for x in val) and len(kinds) >= 2)
+    shard = 12
+    shards = [cases[k:k + shard] for k in range(0, len(cases), shard)]
+
+    def run_shard(k):
+        p = os.path.join(wdir(ctx), "rec_%d.v" % k)
+        with open(p, "w") as f:
+            f.write(REC_HEADER)
+            f.write("Definition cases : list rcase := [\n" + ";\n".join(
+                "{| rc_prog := %s;\n rc_real := %s |}" % (gens[i].coq(), c05_rec.coq_real(rs)) for i, rs in shards[k]) + "].\n")
+            f.write("Definition M := Eval vm_compute in rec_mismatches cases.\nPrint M.\n")
+        rc, out = C.coq_run(p)
+        flat = out.replace("\n", " ")
+        m = re.search(r"M\s*=\s*(\[.*\])\s*:\s*list", flat)
+        if rc != 0 or not m:
+            return k, None, out[-800:]
+        bad = [(int(a), [int(x) for x in re.findall(r"\d+", b)]) for a, b in re.findall(r"\((\d+)%N,\s*\[([^\]]*)\]\)", m.group(1))]
+        return k, bad, ""
+
+    errs, nbad = [], 0
+    for k, bad, err in C.parallel_map(run_shard, range(len(shards))):
+        if bad is None:
+            errs.append(err)
+            continue
+        for ci, idxs in bad:
+            i, rs = shards[k][ci]
+            nbad += 1
+            real_side = [rs[x - 1000] for x in idxs if 1000 <= x < 1000 + len(rs)]
+            what = ("real Decls without an equal model Decl: " + "; ".join("%s obj=%r meth=%r deps=%r selected=%r" % (
+                x["full_name"], x["obj"], x["meth"], x["deps"], x["sel"]) for x in real_side[:3])) if real_side else "Decl count differs"
+            if nbad <= 3:
+                ctx.violation("dce-recorded-names-or-deps-differ-from-model",
+                              "the DCE names / dependencies / selection the real compiler records for a generated program differ from the mirrored "
+                              "recorder (Model.C05_Record) on the same abstract program; " + what[:900],
+                              dict(kind="record", go=gens[i].go(), coq_prog=gens[i].coq(), real=rs, model_decl_indexes=[x for x in idxs if x < 999],
+                                   real_decl_indexes=[x - 1000 for x in idxs if x >= 1000]), concrete=False)
+    errs = drop_timeouts(ctx, errs)
+    if errs:
+        ctx.violation("model-evaluation-failed", "Coq evaluation of the recorder cases failed: " + errs[0][-300:], dict(log=errs[0]), concrete=False)
+    ctx.cov["records"] = dict(programs=n, compared=len(cases), decls=sum(len(v) for _, v in cases), mismatching=nbad, mention_kinds=feats)
+
+
+def replay_record(ctx, rp):
+    d = os.path.join(wdir(ctx), "replay_rec")
+    C.write_go_program(d, {"main.go": rp["go"]})
+    os.makedirs(os.path.join(d, "o"), exist_ok=True)
+    rc, out, err = C.sh2([HARNESS(), "link", "o"], cwd=d, env=henv(), timeout=600)
+    print("real compiler: rc=%d %s" % (rc, (out + err)[-300:]))
+    if rc == 0:
+        for x in c05_rec.real_rdecls(json.load(open(os.path.join(d, "o", "decls.json")))):
+            print("  real ", x["tag"], x["obj"], x["meth"], x["deps"], x["sel"])
+    p = os.path.join(d, "show.v")
+    with open(p, "w") as f:
+        f.write(REC_HEADER + "Definition S := Eval vm_compute in show %s.\nPrint S.\n" % rp["coq_prog"])
+    print("model:", C.coq_run(p)[1][-6000:])
+
+
 def correspond(ctx):
     try:
         correspond_(ctx)
@@ -729,13 +876,15 @@ def correspond(ctx):
 
 def correspond_(ctx):
     wdir(ctx)          # create it in the main thread
-    stages = os.environ.get("VERIF_C05_STAGES", "graphs,exprs,witnesses,programs").split(",")   # development knob only
+    stages = os.environ.get("VERIF_C05_STAGES", "graphs,exprs,witnesses,records,programs").split(",")   # development knob only
     if "graphs" in stages:
         graphs(ctx); ctx.log("graphs done")
     if "exprs" in stages:
         side_effects(ctx); ctx.log("side-effect expressions done")
     if "witnesses" in stages:
         witnesses(ctx); ctx.log("witnesses done")
+    if "records" in stages:
+        records(ctx); ctx.log("recorder programs done")
     if "programs" in stages:
         programs(ctx); ctx.log("programs done")
 
@@ -752,6 +901,8 @@ def replay(ctx, data):
         res = build_and_check(ctx, d, rp["files"], native=True)
         res.pop("dump", None)
         print(json.dumps(res, indent=1))
+    elif rp.get("kind") == "record":
+        replay_record(ctx, rp)
     elif rp.get("kind") == "expr":
         src = c05_expr.PRELUDE + "var v0 = " + rp["go"] + "\n"
         print(C.sh2([HARNESS(), "hse"], inp=src.encode()))
@@ -762,14 +913,23 @@ def replay(ctx, data):
 
 
 TECHNIQUE = ("Coq proof (loop invariant of the work-list selector, least-fixed-point characterisation, order independence, monotonicity, soundness w.r.t. any "
-             "reference relation over-approximated by the recorded deps) + differential correspondence with the real dce.Selector, analysis.HasSideEffect "
-             "and double linking (normal / every Decl forced alive) of generated programs")
+             "reference relation over-approximated by the recorded deps; phase 4: executable mirror of the DCE recorder (filter strings + DeclareDCEDep call sites) "
+             "over an abstract syntax of mentions, proof that the recorded names/deps cover every reference and every method-set dispatch, hence soundness of the "
+             "selection without the over-approximation hypothesis) + differential correspondence with the real dce.Selector, analysis.HasSideEffect, the real "
+             "recorded filters/deps of every Decl of generated programs, and double linking (normal / every Decl forced alive) of generated programs")
 LEVEL_TEXT = ("Machine-checked theorems over an executable model of dce.Info/Selector/Include: the selection is exactly the least set containing the roots and closed "
               "under `all non-empty filters are deps of selected declarations`, independent of Include order, dep order and duplicates, monotone, and contains "
-              "everything reachable from the roots through any reference relation that the recorded deps over-approximate. The model is tied to the code on every run "
-              "(random graphs and the declaration graphs of real programs through the real Selector); the over-approximation hypothesis itself (filters.go names, "
-              "recording call sites) is checked on generated programs by linking the same archives with and without DCE and by a static reference check of out.js.")
-LEVEL_NOTE = ("The proof covers the selection algorithm and the root rule; the adequacy of the recorded dependencies is a hypothesis of select_sound and is only "
-              "tested (48 programs quick / 500 thorough). Known findings: initialisers that can panic without a call/receive are eliminated (HasSideEffect) -- kept in the model "
-              "and refuted in Props/C05.v; byte/uint8 (rune/int32) spelled differently in interface and implementation of an unexported method eliminates the method (filters.go, not in the model); a self-referential inline type-parameter constraint "
-              "overflows the stack in filters.go (not in the model). No axioms.")
+              "everything reachable from the roots through any reference relation that the recorded deps over-approximate. Phase 4: for programs over the modelled "
+              "mentions (package functions/variables, named types through pointers/slices/maps/func types, generic instances, concrete/promoted/interface method calls "
+              "and values, method expressions) the recording itself is in the model and C05_select_sound proves, with no hypothesis on the deps, that every declaration "
+              "that can be executed or reached by a dynamically possible interface call is selected (C05_recorded_deps_cover_references, C05_method_filter_agrees, "
+              "C05_filter_subst), for alias-free spellings; with byte/uint8 spellings it is refuted by two witnesses replayed on the real compiler. The models are tied to "
+              "the code on every run (random graphs, decl graphs of real programs, recorded filters/deps/selection of every Decl of generated abstract programs); outside "
+              "the modelled syntax the over-approximation hypothesis is checked by linking the same archives with and without DCE and a static reference check of out.js.")
+LEVEL_NOTE = ("The proof covers the selection algorithm, the root rule and (phase 4) the recorder for the modelled syntax; for struct/interface literals in signatures, "
+              "non-any constraints, function-nested types and linknames the adequacy of the recorded dependencies is still a hypothesis (C05_select_sound_partial) that is only "
+              "tested (48 programs quick / 500 thorough). The struct zero-value closure and the collapsing of anonymous-type Decls are done by the harness. Known findings: "
+              "initialisers that can panic without a call/receive are eliminated (HasSideEffect) -- kept in the model and refuted in Props/C05.v; byte/uint8 (rune/int32) spelled "
+              "differently in interface and implementation of an unexported method eliminates the method, and (new) a generic instance spelled F[byte] in dead code and F[uint8] "
+              "in live code is eliminated -- both now IN the recorder model and refuted in Props/C05.v (C05_method_filter_refuted, C05_select_sound_refuted_iface/_instance); "
+              "a self-referential inline type-parameter constraint overflows the stack in filters.go (not in the model). No axioms.")
